@@ -56,12 +56,18 @@ type Plan struct {
 	// SyncZero: the signer returns no signature for SyncZeroSig's sync committee messages.
 	SyncZero          bool   `json:"sync_zero,omitempty"`
 	SyncZeroSig       int    `json:"sync_zero_sig,omitempty"`
+	// ContribZero: the signer returns no signature for ContribZeroSig's contribution-and-proof objects
+	// (the third signing step of an aggregating member, after message and selection proof succeeded).
+	ContribZero    bool `json:"contrib_zero,omitempty"`
+	ContribZeroSig int  `json:"contrib_zero_sig,omitempty"`
 	SyncCommitteeSize uint64 `json:"sync_committee_size,omitempty"`
 	// Steady: duty tables repeat with the sync committee period, so that equal period phases see equal duties (C20).
 	Steady bool `json:"steady,omitempty"`
 	// CoincideReorg: the head event that carries a reorg affecting the current epoch's attester duties arrives
 	// exactly when that slot's attestation job is due (slot start + attestation delay).
 	CoincideReorg bool `json:"coincide_reorg,omitempty"`
+	// ProposeTakes: how long the recording proposer (focused variant) stays inside Propose (default 500ms).
+	ProposeTakes time.Duration `json:"propose_takes,omitempty"`
 	// AnswerAtRequest: a node computes the answer to a duties request when the request arrives and the
 	// latency is the way back (default: the answer reflects the chain at the moment it is returned).
 	AnswerAtRequest bool `json:"answer_at_request,omitempty"`
